@@ -206,5 +206,5 @@ class Davenport:
         K[0, 0] = sigma
         K[1:, 1:] = S - sigma*np.eye(3)
         K[0, 1:] = K[1:, 0] = z
-        w, v = np.linalg.eig(K)
+        w, v = np.linalg.eigh(K)        # K is symmetric by construction: real eigen-pairs
         return v[:, np.argmax(w)]       # Eigenvector associated to largest eigenvalue is optimal quaternion
